@@ -4,9 +4,9 @@ From Coq Require Import Lia.
 Open Scope nat_scope.
 
 (* ---------- a request that is not allowed raises and changes nothing ---------- *)
-Theorem disallowed_unchanged m h fuel st name :
+Theorem disallowed_unchanged m h os fuel st name :
   (find_trans m name = None \/ exists srcs dst, find_trans m name = Some (srcs, dst) /\ existsb (Nat.eqb (cur st)) srcs = false) ->
-  perform m h (S fuel) st name = (st, true).
+  perform m h os (S fuel) st name = (st, true).
 Proof.
   intros [H|(srcs & dst & H & Hs)]; cbn [perform]; rewrite H; [reflexivity|]. rewrite Hs. reflexivity.
 Qed.
@@ -35,58 +35,82 @@ Proof.
   destruct raised; [discriminate Hr|]. apply IH; [apply Hpf; reflexivity|exact Hr].
 Qed.
 
-Theorem flat_nested_consistent m h : flat m -> trans_in_range m -> quiet_leave h ->
-  forall fuel st name, inv m st -> snd (perform m h fuel st name) = false -> inv m (fst (perform m h fuel st name)).
+Lemma inv_log m st e : inv m st -> inv m (with_log st e).
+Proof. intros [A B]; split; assumption. Qed.
+
+Lemma inv_spent m st e : inv m st -> inv m (with_spent st e).
+Proof. intros [A B]; split; assumption. Qed.
+
+Lemma fire_inv m h os (pf : sm -> string -> outcome) :
+  (forall st n, inv m st -> snd (pf st n) = false -> inv m (fst (pf st n))) ->
+  forall st e, inv m st -> snd (fire h os pf st e) = false -> inv m (fst (fire h os pf st e)).
+Proof.
+  intros Hpf st e Hst Hr. unfold fire in *.
+  set (st0 := with_log st e) in *.
+  assert (H0 : inv m st0) by (apply inv_log; exact Hst).
+  destruct (if os e then if existsb (evt_same e) (spent st0) then (st0, []) else (with_spent st0 e, h e) else (st0, h e)) as [st0' names] eqn:E.
+  assert (H0' : inv m st0').
+  { destruct (os e); [destruct (existsb (evt_same e) (spent st0))|]; injection E as <- <-; [exact H0|apply inv_spent; exact H0|exact H0]. }
+  pose proof (run_requests_inv (inv m) pf Hpf names st0' H0') as R.
+  destruct (run_requests pf st0' names) as [st1 raised]. cbn [fst snd] in R.
+  destruct raised; [discriminate Hr|]. cbn [fst]. apply inv_log. apply R. reflexivity.
+Qed.
+
+Lemma leave_flat m h os pf n st s dst : flat m -> quiet_leave h -> 0 < n ->
+  exists st', leave_chain m h os pf n st s dst = (st', false) /\ cur st' = cur st /\ active st' = set_nth s false (active st).
+Proof.
+  intros Hflat Hq Hn. destruct n as [|k]; [lia|]. cbn [leave_chain]. unfold fire. rewrite Hq.
+  destruct (os (Leave s)); [destruct (existsb (evt_same (Leave s)) (spent (with_log st (Leave s))))|];
+    cbn [run_requests]; rewrite Hflat; eexists; (split; [reflexivity|split; reflexivity]).
+Qed.
+
+Theorem flat_nested_consistent m h os : flat m -> trans_in_range m -> quiet_leave h ->
+  forall fuel st name, inv m st -> snd (perform m h os fuel st name) = false -> inv m (fst (perform m h os fuel st name)).
 Proof.
   intros Hflat Hrange Hq. induction fuel as [|f IH]; intros st name Hinv Hok; [discriminate Hok|].
   cbn [perform] in *. destruct (find_trans m name) as [[srcs dst]|] eqn:Ef; [|discriminate Hok].
   destruct (negb (existsb (Nat.eqb (cur st)) srcs)); [discriminate Hok|].
   pose proof (Hrange _ _ _ Ef) as Hdst. destruct Hinv as [Hc Ha].
-  (* leave: no requests, one flag cleared, no parent *)
-  assert (Hl : leave_chain m h (perform m h f) (nstates m) st (cur st) dst =
-               (with_active (with_log st (Leave (cur st))) (cur st) false, false)).
-  { destruct (nstates m) as [|k] eqn:En; [lia|]. cbn [leave_chain]. unfold fire. rewrite Hq. cbn [run_requests].
-    rewrite Hflat. reflexivity. }
-  rewrite Hl in *.
-  set (st2 := with_cur (with_active (with_log st (Leave (cur st))) (cur st) false) dst) in *.
-  (* enter: flag set, then the enter handlers run from a consistent state *)
-  assert (He : enter_chain m h (perform m h f) (nstates m) st2 dst (cur st) =
-               fire h (perform m h f) (with_active st2 dst true) (Enter dst)).
+  destruct (leave_flat m h os (perform m h os f) (nstates m) st (cur st) dst Hflat Hq ltac:(lia)) as (st1 & Hl & Hc1 & Ha1).
+  rewrite Hl in *. rewrite Hc1 in *.
+  set (st2 := with_cur st1 dst) in *.
+  assert (He : enter_chain m h os (perform m h os f) (nstates m) st2 dst (cur st) =
+               fire h os (perform m h os f) (with_active st2 dst true) (Enter dst)).
   { destruct (nstates m) as [|k] eqn:En; [lia|]. cbn [enter_chain].
-    destruct (fire h (perform m h f) (with_active st2 dst true) (Enter dst)) as [s3 r3]. destruct r3; [reflexivity|].
+    destruct (fire h os (perform m h os f) (with_active st2 dst true) (Enter dst)) as [s3 r3]. destruct r3; [reflexivity|].
     rewrite Hflat. reflexivity. }
-  change (cur (with_active (with_log st (Leave (cur st))) (cur st) false)) with (cur st) in *.
   rewrite He in *.
-  assert (Hinv2 : inv m (with_log (with_active st2 dst true) (Enter dst))).
-  { split; [exact Hdst|]. unfold st2. cbn [with_log with_active with_cur cur active]. rewrite Ha, set_nth_off, set_nth_on by assumption. reflexivity. }
-  unfold fire in *.
-  pose proof (run_requests_inv (inv m) (perform m h f) (fun s n Hs Hn => IH s n Hs Hn) (h (Enter dst)) _ Hinv2) as R1.
-  destruct (run_requests (perform m h f) (with_log (with_active st2 dst true) (Enter dst)) (h (Enter dst))) as [st3 r3].
-  cbn [fst snd] in R1. destruct r3; [discriminate Hok|]. specialize (R1 eq_refl).
-  assert (Hinv3 : inv m (with_log st3 (Called name))) by (destruct R1 as [A B]; split; assumption).
-  apply (run_requests_inv (inv m) (perform m h f) (fun s n Hs Hn => IH s n Hs Hn) (h (Called name)) _ Hinv3). exact Hok.
+  assert (Hinv2 : inv m (with_active st2 dst true)).
+  { split; [exact Hdst|]. unfold st2. cbn [with_active with_cur cur active]. rewrite Ha1, Ha, set_nth_off, set_nth_on by assumption. reflexivity. }
+  pose proof (fire_inv m h os (perform m h os f) (fun s n Hs Hn => IH s n Hs Hn) _ (Enter dst) Hinv2) as R1.
+  destruct (fire h os (perform m h os f) (with_active st2 dst true) (Enter dst)) as [st3 r3]. cbn [fst snd] in R1.
+  destruct r3; [discriminate Hok|]. specialize (R1 eq_refl).
+  apply (fire_inv m h os (perform m h os f) (fun s n Hs Hn => IH s n Hs Hn) st3 (Called name) R1). exact Hok.
 Qed.
 
 (* ---------- the three shipped machines: every state x every request, by exhaustive evaluation ---------- *)
 Definition evt_eqb (a b : evt) : bool :=
   match a, b with
   | Enter x, Enter y | Leave x, Leave y => x =? y
-  | Called x, Called y => String.eqb x y
+  | Called x, Called y | PostCalled x, PostCalled y => String.eqb x y
+  | PostEnter x, PostEnter y | PostLeave x, PostLeave y => x =? y
   | _, _ => false
   end.
+Definition is_primary (e : evt) : bool := match e with Enter _ | Leave _ | Called _ => true | _ => false end.
 Definition count (e : evt) (l : list evt) : nat := length (filter (evt_eqb e) l).
 Definition same_events (a b : list evt) : bool := (length a =? length b) && forallb (fun e => count e a =? count e b) a.
 
-Definition start_state (m : machine) (s : nat) : sm := {| cur := s; active := active_after (m_parent m) s; log := [] |}.
+Definition start_state (m : machine) (s : nat) : sm := {| cur := s; active := active_after (m_parent m) s; log := []; spent := [] |}.
 
 (* the engine's verdict, end state, flags and events for request `name` in state s are those of the reference *)
 Definition step_conforms (m : machine) (s : nat) (name : string) : bool :=
-  let '(st, raised) := perform m no_handlers 4 (start_state m s) name in
+  let '(st, raised) := perform m no_handlers never_one_shot 4 (start_state m s) name in
   match find (fun t => String.eqb (fst (fst t)) name) (m_trans m) with
   | Some (_, srcs, dst) =>
     if mem s srcs then
       negb raised && (cur st =? dst) && list_eqb Bool.eqb (active st) (active_after (m_parent m) dst) &&
-      same_events (log st) (map Leave (exits (m_parent m) s dst) ++ map Enter (enters (m_parent m) s dst) ++ [Called name])
+      same_events (filter is_primary (log st)) (map Leave (exits (m_parent m) s dst) ++ map Enter (enters (m_parent m) s dst) ++ [Called name]) &&
+      same_events (filter (fun e => negb (is_primary e)) (log st)) (map post_of (filter is_primary (log st)))
     else raised && (cur st =? s) && list_eqb Bool.eqb (active st) (active_after (m_parent m) s) && match log st with [] => true | _ => false end
   | None => raised && (cur st =? s) && list_eqb Bool.eqb (active st) (active_after (m_parent m) s) && match log st with [] => true | _ => false end
   end.
@@ -115,7 +139,7 @@ Definition cex_machine : machine :=
   {| m_parent := [None; None; Some 1]; m_trans := [("go"%string, [0], 2); ("back"%string, [2], 0)] |}.
 Definition cex_handlers : handlers := fun e => match e with Enter 2 => ["back"%string] | _ => [] end.
 Theorem nested_hierarchical_refuted :
-  let '(st, raised) := perform cex_machine cex_handlers 8 (start_state cex_machine 0) "go"%string in
+  let '(st, raised) := perform cex_machine cex_handlers never_one_shot 8 (start_state cex_machine 0) "go"%string in
   raised = false /\ cur st = 0 /\ active st = [true; true; false] /\ active_after (m_parent cex_machine) 0 = [true; false; false].
 Proof. vm_compute. repeat split. Qed.
 
